@@ -618,8 +618,10 @@ def main():
         wall_s=round(time.time() - t0, 2), violations=len(violations),
     )
     if os.environ.get("VERIF_DEV_SKIP_PROOF") != "1":      # a development run without the proof leaves no record
-        os.makedirs(os.path.join(ROOT, "evidence"), exist_ok=True)
-        with open(os.path.join(ROOT, "evidence", pid + ".json"), "w") as f:
+        # runs against a deliberately modified /repo (tools/try_seeded.sh) keep their record out of evidence/
+        evdir = os.environ.get("VERIF_EVIDENCE_DIR") or os.path.join(ROOT, "evidence")
+        os.makedirs(evdir, exist_ok=True)
+        with open(os.path.join(evdir, pid + ".json"), "w") as f:
             json.dump(ev, f, indent=1)
 
     for kid, wit in sorted(known_hits.items()):
